@@ -464,6 +464,13 @@ func (t *tr) ret(x *ast.ReturnStmt) string {
 			}
 		}
 	}
+	if !f.optional && len(res) == 1 && f.nres > 1 {
+		if _, isCall := res[0].(*ast.CallExpr); isCall {
+			if tup, ok := t.typeOf(res[0]).(*types.Tuple); ok && tup.Len() == f.nres {
+				return t.expr(res[0]) // return g(…): the callee's tuple is the result
+			}
+		}
+	}
 	if f.optional {
 		errE := res[len(res)-1]
 		res = res[:len(res)-1]
@@ -841,6 +848,10 @@ func (t *tr) block(stmts []ast.Stmt, depth int, k func() string) string {
 					t.setVar(n, ty, "0")
 				case kBool:
 					t.setVar(n, ty, "false")
+				case kOpt:
+					t.setVar(n, ty, "none")
+				case kAbs, kErr:
+					// no zero value in the model: the variable must be assigned before it is read (a read fails)
 				default:
 					return t.fail(s, "var of type %s", ty)
 				}
@@ -863,6 +874,9 @@ func (t *tr) block(stmts []ast.Stmt, depth int, k func() string) string {
 						// r1, …, rn := X.m(args) on an abstract object X: (r1, …, rn, X') := name X args
 						sel := c.Fun.(*ast.SelectorExpr)
 						xobj, xname := t.placeObj(sel.X)
+						if _, isParam := t.f.rootCanon[xobj]; isParam {
+							t.f.consumesParams = true
+						}
 						sig, _ := t.typeOf(c.Fun).(*types.Signature)
 						if xobj == nil || sig == nil || sig.Results().Len() != len(x.Lhs) {
 							return t.fail(s, "-step call shape")
@@ -927,6 +941,18 @@ func (t *tr) block(stmts []ast.Stmt, depth int, k func() string) string {
 			}
 			if len(x.Lhs) == 2 && len(x.Rhs) == 1 {
 				if ie, ok := x.Rhs[0].(*ast.IndexExpr); ok {
+					if kd, _ := t.kindOf(ie.X); kd == kAbs {
+						an, _ := absTypeOf(t.typeOf(ie.X))
+						vid, isId := x.Lhs[0].(*ast.Ident)
+						oid, isId2 := x.Lhs[1].(*ast.Ident)
+						if !isId || !isId2 || vid.Name != "_" || !t.f.hasBinder(an+"_has") {
+							return t.fail(s, "lookup in the abstract map %s: only `_, ok := m[k]` is translated", t.src(ie.X))
+						}
+						if oid.Name != "_" {
+							t.setVar(oid, types.Typ[types.Bool], fmt.Sprintf("(%s_has %s %s)", an, t.expr(ie.X), t.expr(ie.Index)))
+						}
+						return t.block(rest, depth, k)
+					}
 					if kd, _ := t.kindOf(ie.X); kd == kSet {
 						// v, found := m[k] on a set: both are membership
 						mem := fmt.Sprintf("(decide (%s ∈ %s))", t.expr(ie.Index), t.expr(ie.X))
@@ -1174,10 +1200,25 @@ func (t *tr) structLit(id *ast.Ident, rhs ast.Expr) bool {
 		rhs = u.X
 	}
 	cl, ok := rhs.(*ast.CompositeLit)
+	var ty types.Type
 	if !ok {
-		return false
+		// new(T): all fields zero
+		c, isCall := rhs.(*ast.CallExpr)
+		if !isCall || len(c.Args) != 1 {
+			return false
+		}
+		if fid, isId := c.Fun.(*ast.Ident); !isId || fid.Name != "new" || t.objOf(fid) == nil || t.objOf(fid).Pkg() != nil {
+			return false
+		}
+		tv, isTy := t.u.info.Types[c.Args[0]]
+		if !isTy || !tv.IsType() {
+			return false
+		}
+		ty = tv.Type
+		cl = &ast.CompositeLit{}
+	} else {
+		ty = t.typeOf(cl)
 	}
-	ty := t.typeOf(cl)
 	st, ok := ty.Underlying().(*types.Struct)
 	if !ok {
 		return false
@@ -1210,6 +1251,14 @@ func (t *tr) structLit(id *ast.Ident, rhs ast.Expr) bool {
 				}
 			case kBool:
 				val = "false"
+			case kSet, kRecList:
+				val = "[]"
+			case kOpt:
+				val = "none"
+			case kRec:
+				val = "default"
+			case kAbs:
+				continue // no zero value in the model: must be assigned before it is read (a read of it fails)
 			default:
 				val = "0"
 			}
@@ -1355,7 +1404,7 @@ func (t *tr) bindOption(x *ast.AssignStmt, tup *types.Tuple, rest []ast.Stmt, de
 				if len(outs) > 1 {
 					ty = "(" + ty + ")"
 				}
-				opt := t.define("opt_"+outs[0].dst.Name(), "Option "+ty, call)
+				opt := t.define("opt_"+outs[0].dst.Name(), optOf(ty), call)
 				f := t.f
 				saved := f.binders
 				bn := t.newBinderName()
@@ -1435,7 +1484,7 @@ func (t *tr) bindOption(x *ast.AssignStmt, tup *types.Tuple, rest []ast.Stmt, de
 	if call == "" {
 		call = t.expr(x.Rhs[0])
 	}
-	opt := t.define("opt_"+vid.Name, "Option "+t.leanType(tup.At(0).Type()), call)
+	opt := t.define("opt_"+vid.Name, optOf(t.leanType(tup.At(0).Type())), call)
 	saved := f.binders
 	bn := t.newBinderName()
 	f.binders = append(append([]binder{}, f.binders...), binder{bn, t.leanType(tup.At(0).Type())})
